@@ -64,7 +64,28 @@ func (f *Frame) call(st *State, r *Term, site ssa.Instruction, cc *ssa.CallCommo
 	return f.callFn(st, r, callee, bindings, args, pos)
 }
 
+// callFn: a call to a known function. For `traced` callees a ghost counter of completed calls is kept
+// (it survives the callee's unknown effects): ncalls("key") in specifications.
 func (f *Frame) callFn(st *State, r *Term, callee *ssa.Function, bindings []Val, args []Val, pos token.Pos) Val {
+	target := callee
+	if o := callee.Origin(); o != nil {
+		target = o
+	}
+	ct := f.ctx.eng.contractFor(target)
+	if ct == nil || !ct.Traced {
+		return f.callFn0(st, r, callee, bindings, args, pos)
+	}
+	name := "$ncalls!" + funcKey(target)
+	before := f.ctx.comp(st, name, SInt)
+	out := f.callFn0(st, r, callee, bindings, args, pos)
+	after := f.ctx.fresh("ncalls", SInt)
+	f.ctx.assume(Implies(r, Ge(after, Add(before, IntLit(1)))))
+	f.ctx.assume(Implies(Not(r), Eq(after, before)))
+	st.heap[name] = after
+	return out
+}
+
+func (f *Frame) callFn0(st *State, r *Term, callee *ssa.Function, bindings []Val, args []Val, pos token.Pos) Val {
 	eng := f.ctx.eng
 	// instantiation wrappers and bound-method wrappers forward to their target
 	tmap := TMap{}
